@@ -89,8 +89,8 @@ class Recorder:
                 entry = {"lvl": len(aggregate), "n": int(conformalization_data.shape[0]), "counts": [], "aggregate": list(aggregate)}
                 ctx["calls"].append(entry)
                 ctx["stack"].append(entry)
-                if len(ctx["stack"]) > 40:
-                    raise RecursionError("GaussianModel.fit recursion deeper than 40 frames")
+                if len(ctx["stack"]) > 10:
+                    raise RecursionError("GaussianModel.fit recursion deeper than 10 frames (legitimate depth is at most 2 * len(aggregate) + 1)")
             try:
                 out = rec.o_fit(self_, conformalization_data, reporting_units, nonreporting_units, estimand, aggregate=aggregate, alpha=alpha, reweight=reweight, top_level=top_level)
             finally:
